@@ -35,7 +35,7 @@ func (c05) Rule() string {
 		"plus 'response lost' for every push-pull, each followed by the client (i) re-sending the identical pack or (ii) making " +
 		"more edits and syncing again. Oracle per faulted run: the retry succeeds once the fault is cleared; the log holds no " +
 		"(actor, lamport) twice; counters / text characters / array elements equal the fault-free twin; replicas converge. " +
-		"Non-trivial = the injected fault actually fired. Distinct = (history hash, request, call index, mode, retry flavour)."
+		"Non-trivial = the injected fault actually fired. Distinct = (history hash, request, call index, mode, retry flavour). sdk family: the real client.Client re-syncing after injected storage faults; every edit a unique array element; oracle: every id exactly once everywhere."
 }
 func (c05) Assumptions() []string {
 	return []string{
